@@ -40,7 +40,7 @@ class Gen:
             a -= 8
         return a & M64
 
-    def aspace(self, noaddr=0.0, other=0.04):
+    def aspace(self, noaddr=0.015, other=0.04):
         r = self.r
         k = r.random()
         if k < noaddr:
@@ -281,9 +281,79 @@ class Gen:
               toks.append("Q:%s:%x" % (sh(sp), a))
         return toks
 
+    def stage2_case(self, nq):
+        """kv2phys whose second stage has two alternatives: the first stage is a non-linear
+        method that ends in an address space outside caps; ADDRXLAT_SYS_MAP_MACHPHYS_KPHYS
+        selects a non-linear method whose first step runs (it overwrites the scratch step)
+        and which then fails with NODATA/NOMETH -- an unreadable table page, a nested
+        translation that does not exist --; ADDRXLAT_SYS_MAP_KPHYS_MACHPHYS selects a method
+        with an arbitrary target space.  The running address of do_op must survive the
+        failed alternative."""
+        r = self.r
+        cap = r.choice([0, 2, 0, 3])
+        caps = 1 << cap
+        if r.random() < 0.3:
+            caps |= 1 << r.choice([0, 2, 5])
+        mid = r.choice([1, 1, 1, 0])                      # where stage 1 ends (not in caps)
+        if (caps >> mid) & 1:
+            mid = 1
+        fail = r.choice([5, 5, 6])                        # get-page failure status: continue
+        bas = r.choice([0, 0, 0, 2, 1])                   # where the stage-2 table lives
+        rcaps = (1 << bas) | (r.choice([0, 1, 2, 4]))
+        if r.random() < 0.25:
+            rcaps &= ~(1 << bas)                          # ... reachable only by translation
+        toks = ["C:%x" % caps, "R:%x" % rcaps, "O:%s" % sh(0 if r.random() < 0.8 else -7), "F:%s" % sh(fail)]
+        src = r.choice(self.small) + 8 * r.randint(0, 40)
+        dst = r.choice(self.small) + 0x1000 * r.randint(0, 8)
+        k = r.random()
+        if k < 0.4:
+            toks.append("T8=K:%s:ffff:%x.%x" % (sh(mid), src & ~0xfff, dst))
+        elif k < 0.7:
+            toks.append("T8=U:0:%s:%x" % (sh(mid), (src + dst) & M64))
+        else:
+            toks.append("T8=A:%s:%s:%x:c:8:8" % (sh(mid), sh(bas), 0x30000))
+            toks.append("W:%s:%x:%x" % (sh(bas), 0x30000 + 8 * (src >> 12), dst >> 12))
+            if not (rcaps >> bas) & 1:
+                toks[1] = "R:%x" % (rcaps | (1 << bas))
+        toks.append("M1=0:%x:8" % M64)
+        if r.random() < 0.3:
+            toks.append("M0=0:%x:8" % M64)
+        # stage 2, first alternative: fails after its first step
+        tbl = r.choice([0x50000, 0x61000, 0x7f000]) + 8 * r.randint(0, 3) * r.choice([0, 1])
+        k = r.random()
+        if k < 0.5:
+            toks.append("T9=A:%s:%s:%x:%x:8:8" % (sh(r.choice([0, 1, 2])), sh(bas), tbl & ~7, r.choice([12, 12, 0, 3])))
+        elif k < 0.75:
+            toks.append("T9=P:%s:%s:%x:64:0:c.4.4" % (sh(r.choice([0, 1, 2])), sh(bas), tbl & ~0xfff))
+        else:
+            toks.append("T9=X:%s:%s:%x:0:%x:c.9.9" % (sh(r.choice([0, 1, 2])), sh(bas), tbl & ~0xfff,
+                                                      r.choice([6, 3, 2])))
+        toks.append("M3=0:%x:9" % M64)
+        # second alternative: any method, any target space (often one the caller can use)
+        tgt = cap if r.random() < 0.7 else r.choice([0, 1, 2])
+        k = r.random()
+        if k < 0.5:
+            toks.append("Ta=L:%s:%x" % (sh(tgt), r.choice([0, 0x1000, 0x100000])))
+        elif k < 0.75:
+            toks.append("Ta=U:0:%s:%x" % (sh(tgt), r.choice(self.pool)))
+        else:
+            toks.append("Ta=K:%s:%x:0.%x" % (sh(tgt), M64 >> 1, r.choice(self.small)))
+        toks.append("M4=0:%x:a" % M64)
+        if r.random() < 0.3:
+            toks.append("T5=L:2:%x" % 0xffff880000000000)
+            toks.append("M2=0:%x:5" % (M64 >> 8))
+        for _ in range(r.randint(0, 3)):
+            toks.append("G:%s:%x" % (sh(r.choice([0, 1, 2])), r.choice(self.pool) & ~0xfff))
+        for i in range(max(2, nq)):
+            a = src + r.choice([0, 0, 8, 0x10, 0x1000]) if i < 2 else self.addr()
+            toks.append(r.choice(["Q:2:%x" % a, "Q:2:%x" % a, "V:2:%x:%s" % (a, sh(cap))]))
+        return toks
+
     def case(self, nq):
         r = self.r
-        toks = self.coherent(nq) if r.random() < 0.45 else self.random_case(nq)
+        k0 = r.random()
+        toks = self.stage2_case(nq) if k0 < 0.05 else \
+            self.coherent(nq) if k0 < 0.48 else self.random_case(nq)
         qs = [t for t in toks if is_query(t)]
         toks = [t for t in toks if not is_query(t)]
         k = r.random()
@@ -386,7 +456,7 @@ class Gen:
                     break
                 sp = self.aspace(other=0.03)
             if r.random() < 0.25:
-                toks.append("V:%s:%x:%s" % (sh(sp), a, sh(r.choice([0, 1, 2, 2, 0, 3]))))
+                toks.append("V:%s:%x:%s" % (sh(sp), a, sh(r.choice([0, 1, 2, 2, 0, 3, 0, 1, 2, -1, 40]))))
             else:
                 toks.append("Q:%s:%x" % (sh(sp), a))
         return toks
